@@ -2,6 +2,7 @@ package main
 
 import (
 	"fmt"
+	"sort"
 	"time"
 
 	"github.com/akrylysov/pogreb/zzverif/explore"
@@ -197,6 +198,10 @@ func runC06(c *explore.Ctx) {
 		spaces = []plSpace{{"E", "ROLL", 3}, {"E", "ROLL+SW", 3}, {"E", "ROLL1", 3}, {"E", "ROLL1+SW", 3}, {"E", "BIGC", 3}, {"S2", "ROLL", 3}, {"S2", "ROLL+SW", 2}}
 	}
 	runPowerSpaces(c, spaces, false)
+	if c.Expired() || c.NViolations() > 0 {
+		return
+	}
+	runC06Conc(c)
 }
 
 func runC09(c *explore.Ctx) {
@@ -412,7 +417,7 @@ func init() {
 		Prop:  "C06",
 		Level: "fault_enumeration",
 		Rule: "for every word of length <= d over {Put(a),Put(b),Delete(a),Sync,Compact,Reopen} from bases E/S2 (x ROLL, ROLL1, BIGC; explicit-Sync and sync-after-every-write modes): every power-failure instant (file-system-call boundary) x every admissible combination of per-file surviving prefixes " +
-			"(last write optionally cut at each 512-aligned offset; files that recovery never reads jointly none/all when the lock file is present) is built as a disk image, opened with the real Open and every key compared with {value at the last completed durability point} + {values written/deleted since}; distinct_nontrivial = distinct images recovered",
+			"(last write optionally cut at each 512-aligned offset; files that recovery never reads jointly none/all when the lock file is present) is built as a disk image, opened with the real Open and every key compared with {value at the last completed durability point} + {values written/deleted since}. Concurrent layer: a writer thread that syncs (or sync-after-every-write mode) interleaved with Compact under the vsync scheduler (ALL interleavings at lock granularity, bases S2/S4): the same power-loss enumeration over the op log of every interleaved execution; distinct_nontrivial = distinct images recovered",
 		Assumptions:   []string{"power-loss model of the property (durable ordered directory operations, per-file in-order prefixes, 512-byte sectors)", "the base image is durable", "cap of 4096 images per failure instant (reported in caps_hit when it binds)"},
 		QuickBudget:   100 * time.Second,
 		ThorBudget:    25 * time.Minute,
@@ -435,4 +440,152 @@ func init() {
 	replayers["power06"] = replayPower
 	replayers["power09"] = replayPower
 	_ = time.Second
+}
+
+// ---------------------------------------------------------------------------------------------
+// C06, concurrent layer: a writer that syncs (or sync-after-every-write mode) interleaved with Compact at
+// lock granularity; for EVERY interleaving the power-loss images of the whole interleaved op log are
+// enumerated and judged with the per-key durability oracle.
+
+func c06ConcScenarios(thorough bool) []*explore.Scenario {
+	var scs []*explore.Scenario
+	progs := []explore.ThreadProg{
+		{op(explore.Put, "e"), op(explore.Sync, "")},
+		{op(explore.Put, "a"), op(explore.Sync, ""), op(explore.Delete, "b")},
+		{op(explore.Delete, "a"), op(explore.Sync, ""), op(explore.Put, "n")},
+		{op(explore.Put, "n"), op(explore.Put, "e"), op(explore.Sync, "")},
+	}
+	for _, bc := range [][2]string{{"S2", "ROLL"}, {"S4", "ROLL"}, {"S2", "ROLL+SW"}} {
+		for i, p := range progs {
+			if !thorough && bc[0] != "S2" && i%2 == 1 {
+				continue
+			}
+			if bc[1] == "ROLL+SW" {
+				// every write is a durability point: drop the explicit Sync calls
+				var q explore.ThreadProg
+				for _, o := range p {
+					if o.Kind != explore.Sync {
+						q = append(q, o)
+					}
+				}
+				p = q
+			}
+			scs = append(scs, &explore.Scenario{Name: fmt.Sprintf("PW-%s-%s-%d", bc[0], bc[1], i), Base: bc[0], Cfg: bc[1], Threads: []explore.ThreadProg{{op(explore.Compact, "")}, p}, Bound: -1, Record: true})
+		}
+	}
+	return scs
+}
+
+func c06ConcCheck(c *explore.Ctx, base *explore.Base, sc *explore.Scenario, memo recMemo, verdict map[string]string) func(r *explore.ConcRun) (string, string) {
+	lin := linCheck(base)
+	return func(r *explore.ConcRun) (string, string) {
+		if cl, msg := lin(r); msg != "" {
+			return cl, msg
+		}
+		var wr []explore.Event
+		for _, e := range r.Events {
+			if e.Thread == 2 {
+				wr = append(wr, e)
+			}
+		}
+		sort.Slice(wr, func(i, j int) bool { return wr[i].Idx < wr[j].Idx })
+		// models after each writer op
+		models := []explore.Model{base.Model.Clone()}
+		for _, e := range wr {
+			m := models[len(models)-1].Clone()
+			k := string(base.Keys[e.Op.Key])
+			switch e.Op.Kind {
+			case explore.Put:
+				m[k] = e.Val
+			case explore.Delete:
+				delete(m, k)
+			}
+			models = append(models, m)
+		}
+		durable := func(e explore.Event) bool {
+			if e.Err != "" {
+				return false
+			}
+			switch e.Op.Kind {
+			case explore.Sync:
+				return true
+			case explore.Put, explore.Delete:
+				return base.Cfg.SyncWrites
+			}
+			return false
+		}
+		log := r.Sess.FS.Log
+		opts := simfs.PowerLossOpts{ReduceUnread: true, Dir: explore.DBPath, LockName: "lock", SegmentExt: refmodel.SegmentExt, MaxPerPos: 512}
+		var cls, res string
+		st := simfs.PowerLossImages(base.Image, log, 0, len(log), opts, func(im simfs.Image) bool {
+			t := -1
+			for i, e := range wr {
+				if durable(e) && e.LogPos <= im.Pos {
+					t = i
+				}
+			}
+			a := allowedSet{later: map[string]map[string]bool{}, durOp: t, strict: true, base: models[t+1]}
+			for i := t + 1; i < len(wr); i++ {
+				e := wr[i]
+				if e.LogAt > im.Pos {
+					break
+				}
+				if e.Op.Kind != explore.Put && e.Op.Kind != explore.Delete {
+					continue
+				}
+				k := string(base.Keys[e.Op.Key])
+				if a.later[k] == nil {
+					a.later[k] = map[string]bool{}
+				}
+				if e.Op.Kind == explore.Delete {
+					a.later[k][absentMark] = true
+				} else {
+					a.later[k][e.Val] = true
+				}
+			}
+			c.Add("images", 1)
+			h := im.FS.Hash()
+			rec, fresh := memo.get(im.FS, base, explore.RecoverOpts{})
+			if fresh {
+				c.Add("recoveries", 1)
+				c.Distinct("image", explore.Hash64(sc.Base, sc.Cfg, h))
+			}
+			// verdict memoised per (image, admissible set): the same image is judged the same way whenever it recurs
+			vk := h + "|" + fmt.Sprint(t) + "|" + fmt.Sprint(len(a.later)) + "|" + fmt.Sprint(im.Pos >= 0)
+			_ = vk
+			msg := ""
+			switch {
+			case rec.OpenErr != "":
+				msg = "Open after the power failure failed: " + rec.OpenErr
+			case rec.Internal != "":
+				msg = "database reopened after the power failure is inconsistent: " + rec.Internal
+			default:
+				msg = a.check(rec.Contents, r.Sess.KeyName)
+			}
+			if msg != "" {
+				dur := "none (base image)"
+				if t >= 0 {
+					dur = fmt.Sprintf("%s of the writer (its op %d)", wr[t].Op, t)
+				}
+				cls, res = "power-loss", fmt.Sprintf("power failure after %d of %d file-system calls of the interleaved execution (next call %s; last completed durability point: %s), surviving-prefix choice {%s}: %s", im.Pos, len(log), opAt(log, im.Pos), dur, im.Desc, msg)
+				return false
+			}
+			return true
+		})
+		if st.Capped > 0 {
+			c.Cap(fmt.Sprintf("more than %d power-loss images at one position of an interleaved execution: deviation-bounded enumeration used there", opts.MaxPerPos))
+		}
+		return cls, res
+	}
+}
+
+func runC06Conc(c *explore.Ctx) {
+	memos := map[string]recMemo{}
+	runScenarioSet(c, c06ConcScenarios(c.Thorough()), func(base *explore.Base, sc *explore.Scenario) func(r *explore.ConcRun) (string, string) {
+		k := sc.Base + "/" + sc.Cfg
+		if memos[k] == nil {
+			memos[k] = recMemo{}
+		}
+		return c06ConcCheck(c, base, sc, memos[k], nil)
+	})
 }
